@@ -328,6 +328,22 @@ public:
         Vector fk = m_fac_f * Q(m_m - 1, m_k - 1) + m_fac_V.col(m_k) * m_fac_H(m_k, m_k - 1);
         m_fac_f.swap(fk);
         m_beta = m_op.norm(m_fac_f);
+
+        // In exact arithmetic the new residual is orthogonal to the first k columns of V.
+        // When the compressed subspace is nearly invariant the two terms above cancel, f becomes
+        // small, and rounding errors dominate its direction. Since f / ||f|| is the next basis
+        // vector, re-orthogonalize it against V so that the basis does not lose orthogonality
+        MapConstMat Vk(m_fac_V.data(), m_n, m_k);
+        Vector Vf(m_k);
+        m_op.adjoint_product(Vk, m_fac_f, Vf);
+        int count = 0;
+        while (count < 3 && Vf.cwiseAbs().maxCoeff() > m_eps * m_beta)
+        {
+            m_fac_f.noalias() -= Vk * Vf;
+            m_beta = m_op.norm(m_fac_f);
+            m_op.adjoint_product(Vk, m_fac_f, Vf);
+            count++;
+        }
         SPECTRA_VERIF_EVENT("compress", *this);
     }
 };
